@@ -16,6 +16,8 @@ import Nsl.Model.Link
 import Nsl.Model.Wasm
 import Nsl.Model.WasmEval
 import Nsl.Model.WasmRange
+import Nsl.Model.ScalarCore
+import Nsl.Model.StorageCore
 import Nsl.Gen.Grammar
 /-!
 # Line-protocol driver: one request per line on stdin, one answer per line on stdout.
@@ -240,6 +242,19 @@ def handle (st : DState) (line : String) : DState × String :=
     match (Sexp.parse (restOfLine line 1)).bind Codec.decProgram with
     | some p => ({ st with ir := some p }, "ok")
     | none => (st, "error")
+  | ["domain"] => (st, match st.mod with
+      -- which theorem domains the loaded typed-core module lies in
+      | some m => "scalarcore=" ++ (if decide (Core.ScalarCore m) then "yes" else "no") ++
+                  " storagecore=" ++ (if decide (Core.StorageCore m) then "yes" else "no") ++
+                  " noshadow=" ++ (if decide (Core.NoShadow m) then "yes" else "no")
+      | none => "error")
+  | ["wfchecks"] => (st, match st.ir with
+      -- the structural sufficient condition of C14 (blockLocal, defsDistinct, labelsDistinct, targetsOK, callsOK)
+      | some p => " | ".intercalate (p.funcs.map fun f => f.name ++ ": " ++ (if Opt.wfChecks f p then "ok" else
+          "no" ++ (if Opt.blockLocal [] f.code then "" else " not-block-local") ++ (if Opt.defsDistinct f.code then "" else " defs-not-distinct") ++
+            (if Opt.labelsDistinct f.code then "" else " labels-not-distinct") ++ (if Opt.targetsOK f.code then "" else " target-missing") ++
+            (if Opt.callsOK f p then "" else " call-unresolved")))
+      | none => "error")
   | ["wf"] => (st, match st.ir with
       | some p => " | ".intercalate (p.funcs.map fun f => f.name ++ ": " ++ WF.wfReport f p)
       | none => "error")
